@@ -581,7 +581,25 @@ def r9_resolution_assembly(ctx):
         ctx.vanished("cursor obligations of tiebroken_ranking: none")
 
 
+def r10_tiebreak_scores(ctx):
+    """The 'first_place' and 'borda' tiebreaks order a tied set by first_place_votes / borda_scores of the profile: the
+    documented order only if those are the (1, 0, ..., 0) and (n, n-1, ..., 1) position scores with tied positions
+    sharing their points.  Decided by the clauses of C04.R3 about these two functions."""
+    from rules import c04
+    sub = type(ctx)(ctx.prog, ctx.prop, ctx.tier)
+    c04.r3_special_vectors(sub)
+    n = 0
+    for o in sub.obs:
+        if (o.function or "").endswith(("first_place_votes", "borda_scores")):
+            o.rule = "C10.R10"
+            ctx.obs.append(o)
+            n += 1
+    if n < 2:
+        ctx.vanished(f"score definitions of the scored tiebreaks: only {n}")
+
+
 RULES = [
+    ("C10.R10", r10_tiebreak_scores, 2, "prerequisite: first_place_votes / borda_scores, which order a tied set under the scored tiebreaks, are the documented position scores (C04.R3)"),
     ("C10.R1", r1_rng_census, 20, "RNG census: draws only at the documented sites; deterministic rules reach only tiebreak_set's draw"),
     ("C10.R2", r2_only_in_tie, 6, "every tiebreak_set call is dominated by a tie test on its argument (or the overshoot test)"),
     ("C10.R3", r3_recorded, 12, "every resolution flows, keyed by the tied set, into the recorded state's tiebreaks"),
